@@ -4,6 +4,7 @@ package vspec
 
 import (
 	"crypto"
+	"crypto/rand"
 	"crypto/rsa"
 	"crypto/sha256"
 	"crypto/sha512"
@@ -591,3 +592,27 @@ func axPSSVerifyLen(pk *rsa.PublicKey, digest, sig string) {}
 //@ lemma auto trusted
 //@ ensures s != nil ==> SuiteGroup(s) != nil
 func axSuiteGroupNonNil(s oprf.Suite) {}
+
+// AES-CTR stream used as a deterministic bit generator by ecdsa.Sign.
+//
+//@ ext crypto/aes.NewCipher func(key []byte) (b cipher.Block, err error)
+//@ ensures (err == nil) == (len(key) == 16 || len(key) == 24 || len(key) == 32)
+//@ ensures err == nil ==> b != nil
+//@ assigns none
+//@ end
+
+// NewCTR panics unless the IV has the block size (16): a precondition.
+//
+//@ ext crypto/cipher.NewCTR func(block cipher.Block, iv []byte) (s cipher.Stream)
+//@ requires block != nil && len(iv) == 16
+//@ ensures s != nil
+//@ assigns none
+//@ end
+
+// The system entropy source is a non-nil reader (set by crypto/rand's initialiser).
+//
+//@ lemma auto trusted
+//@ ensures rand.Reader != nil
+func axRandReader() {}
+
+var _ = rand.Reader
